@@ -12,7 +12,8 @@ LEVEL_TEXT = ("pairs with >= 3 per-interface changes on disjoint interfaces (par
               "name, name_regexp, symbol_name or symbol_name_regexp, optionally with change_kind.  With a matching (or absent) change_kind "
               "the target's entry must disappear, its section's net counter drop by one and its filtered-out counter rise by one, and "
               "every other entry and counter stay identical; with a change_kind that excludes the target's kind of change nothing may "
-              "change.")
+              "change.  A quarter of the pairs are built without debug info, so that the added/removed interfaces are ELF symbols not "
+              "referenced by debug info and the symbol-level filters decide.")
 LEVEL_NOTE = "changes are generated on disjoint interfaces (no shared changed type), so that hiding one entry cannot legitimately move details to another interface"
 ASSUMPTIONS = [LEVEL_NOTE, "interfaces are identified by source name inside the entry text"]
 
@@ -24,6 +25,7 @@ KIND_OF = {"add-param": ("fn", "changed", "function-subtype-change"), "remove-pa
            "change-return-type": ("fn", "changed", "function-subtype-change"), "remove-function": ("fn", "removed", "deleted-function"),
            "add-function": ("fn", "added", "added-function"), "remove-variable": ("var", "removed", "deleted-variable"),
            "add-variable": ("var", "added", "added-variable")}
+SYMBOL_ONLY_KINDS = ("remove-function", "add-function", "remove-variable", "add-variable")
 OTHER_KINDS = {"fn": ["function-subtype-change", "deleted-function", "added-function"],
                "var": ["variable-subtype-change", "deleted-variable", "added-variable"]}
 
@@ -50,12 +52,16 @@ def case(ctx, i):
     from .. import progen, cc
     touched, expects = set(), []
     p = None
+    # a quarter of the cases are built without debug info: added/removed interfaces are then "symbols not referenced by debug
+    # info", filtered by the symbol half of the same code (suppresses_function_symbol / suppresses_variable_symbol)
+    nodebug = rng.random() < 0.25
+    cat = {k: v for k, v in CAT.items() if k in SYMBOL_ONLY_KINDS} if nodebug else CAT
     for attempt in range(8):
         p = progen.generate(rng, wl.gen_opts(rng, ctx.tier, nfuncs=rng.randint(5, 10), nvars=rng.randint(2, 5)))
         q = p
         touched, expects = set(), []
         for k in range(40):
-            res = mutate.apply_random(CAT, q, rng)
+            res = mutate.apply_random(cat, q, rng)
             if not res:
                 continue
             q2, e = res
@@ -72,15 +78,15 @@ def case(ctx, i):
         return r.skip("not-enough-distinct-mutations")
     cfg = wl.pick_config(rng, kinds=("so", "so", "exec"))
     try:
-        a = cc.build(p, os.path.join(d, "a"), **cfg)
-        b = cc.build(q, os.path.join(d, "b"), **cfg)
+        a = cc.build(p, os.path.join(d, "a"), debug=not nodebug, **cfg)
+        b = cc.build(q, os.path.join(d, "b"), debug=not nodebug, **cfg)
     except cc.CompileError as ex:
         return r.skip("compile-error")
     tgt = rng.choice(expects)
     name = tgt.affected[0]
     grp, what_kind, ck = KIND_OF[tgt.kind]
     sect = "suppress_function" if grp == "fn" else "suppress_variable"
-    how = rng.choice(["name", "name_regexp", "symbol_name", "symbol_name_regexp"])
+    how = rng.choice(["symbol_name", "symbol_name_regexp"] if nodebug else ["name", "name_regexp", "symbol_name", "symbol_name_regexp"])
     val = name if how in ("name", "symbol_name") else "^%s$" % name
     lines = ["[%s]" % sect, "  %s = %s" % (how, val)]
     ck_mode = rng.choice(["none", "match", "all", "exclude"])
@@ -93,7 +99,8 @@ def case(ctx, i):
     text = "\n".join(lines) + "\n"
     f = os.path.join(d, "one.suppr")
     open(f, "w").write(text)
-    what = "%s via %s, change_kind %s; mutations %s; %s" % (tgt.kind, how, ck_mode, "+".join(e.kind for e in expects), wl.describe_cfg(cfg))
+    what = "%s via %s, change_kind %s; mutations %s; %s%s" % (tgt.kind, how, ck_mode, "+".join(e.kind for e in expects), wl.describe_cfg(cfg),
+                                                              ", no debug info" if nodebug else "")
     base = wl.tool_run(ctx, "abidiff", [a, b], d)
     supp = wl.tool_run(ctx, "abidiff", ["--suppr", f, a, b], d)
     for res in (base, supp):
@@ -103,6 +110,8 @@ def case(ctx, i):
     rb, rs = report.Report(base.stdout), report.Report(supp.stdout)
     if rb.unparsed or rs.unparsed:
         return r.inconclusive("unparsed-report-line:" + (rb.unparsed + rs.unparsed)[0][:80])
+    if nodebug:
+        grp = "fsym" if grp == "fn" else "vsym"
     sec = "%s-%s" % (grp, what_kind)
     base_entries = rb.entries(sec)
     target_entries = [e for e in base_entries if e.mentions(name)]
@@ -110,7 +119,7 @@ def case(ctx, i):
         return r.skip("target-not-in-baseline-report")
     r.evaluations += 1
     eb, es = entries_by_section(rb), entries_by_section(rs)
-    keyfeat = "%s:%s:%s" % (tgt.kind, how, ck_mode)
+    keyfeat = "%s%s:%s:%s" % (tgt.kind, "-symbol-only" if nodebug else "", how, ck_mode)
     if ck_mode == "exclude":
         if base.out != supp.out or base.rc != supp.rc:
             r.violate("oracle:C23:excluded-change-kind-still-hides:" + keyfeat,
